@@ -1,4 +1,5 @@
 import LSProofs.LoopSpec
+import LSProofs.Props.C16
 /-!
 # One refinement theorem: every history of public calls behaves like `String`s in named slots
 
@@ -99,6 +100,21 @@ def Target (st : List Bytes) (T : Texts) : Op → Option Bytes → Out → Prop
   | .display d pieces, v, out => fresh T d v out
       ((v = some (shown pieces).flatten ∧ out = .ok .unit ∧ ending pieces = .ok .unit) ∨
        (v = none ∧ out = ending pieces ∧ ending pieces ≠ .ok .unit) ∨ (v = none ∧ out = .panicAlloc))
+  -- `n.try_to_lean_string()`: exactly what `Display` prints, or the single allocation was refused
+  | .fromInt d _ n, v, out => fresh T d v out ((v = some (decimal n) ∧ out = .ok .unit) ∨ (v = none ∧ out = .err))
+  | .fromBool d b, v, out => fresh T d v out (v = some (boolText b) ∧ out = .ok .unit)
+  -- `from_utf8`: accepts exactly the encodings of sequences of Unicode scalar values
+  | .fromUtf8 d b, v, out => fresh T d v out
+      ((Valid b → (v = some b ∧ out = .ok .unit) ∨ (v = none ∧ out = .panicAlloc)) ∧
+       (¬ Valid b → v = none ∧ out = .errUtf8))
+  | .fromUtf8Lossy d b, v, out => fresh T d v out
+      ((v = some (lossyText b) ∧ out = .ok .unit) ∨ (v = none ∧ out = .panicAlloc))
+  -- `from_utf16`: accepts exactly the UTF-16 encodings of texts, and yields that text
+  | .fromUtf16 d u, v, out => fresh T d v out
+      ((∀ cs, u = encodeUtf16 cs → (v = some (enc cs) ∧ out = .ok .unit) ∨ (v = none ∧ out = .panicAlloc)) ∧
+       ((¬ ∃ cs, u = encodeUtf16 cs) → v = none ∧ (out = .errUtf16 ∨ out = .panicAlloc)))
+  | .fromUtf16Lossy d u, v, out => fresh T d v out
+      ((v = some (lossy16Text u) ∧ out = .ok .unit) ∨ (v = none ∧ out = .panicAlloc))
 
 /-- one abstract step: the target changes as `Target` allows, every other handle reads what it read -/
 def Step (st : List Bytes) (T : Texts) (op : Op) (T' : Texts) (out : Out) : Prop :=
@@ -594,6 +610,179 @@ theorem target_build (rf : Refuse) {w : World} (hw : Wf w) (op : Op) (hv : op.Ar
   | _ => exact hop.elim
 
 
+theorem lossyPushes_consumed (b : Bytes) :
+    (consumed (lossyPushes b)).flatten = lossyText b ∧ panics (lossyPushes b) = false := by
+  have hn := C16.lossyPushes_no_panic b
+  exact ⟨by rw [consumed_of_no_none _ hn]; exact C16.lossyPushes_concat b, panics_false_of_no_none _ hn⟩
+
+theorem lossy16_consumed (u : List Nat) :
+    (consumed (lossy16 u)).flatten = lossy16Text u ∧ panics (lossy16 u) = false := by
+  have hmap : lossy16 u = ((decodeUtf16 u).map fun o => o.getD replacement).map some := by
+    unfold lossy16
+    rw [List.map_map]
+    apply List.map_congr_left
+    intro o _
+    cases o <;> rfl
+  rw [hmap, consumed_map_some, panics_map_some]
+  exact ⟨rfl, rfl⟩
+
+theorem enc_eq_flatten_map (cs : List Char) : (cs.map String.utf8EncodeChar).flatten = enc cs := by
+  simp [enc, List.flatMap]
+
+theorem decode_encode_consumed (cs : List Char) :
+    (consumed (decodeUtf16 (encodeUtf16 cs))).flatten = enc cs ∧ panics (decodeUtf16 (encodeUtf16 cs)) = false := by
+  have : decodeUtf16 (encodeUtf16 cs) = (cs.map String.utf8EncodeChar).map some := by
+    rw [decodeUtf16_encode, List.map_map]; rfl
+  rw [this, consumed_map_some, panics_map_some]
+  exact ⟨enc_eq_flatten_map cs, rfl⟩
+
+/-- `to_lean_string` on integers and `bool`, and the decoding constructors -/
+theorem target_decode (rf : Refuse) {w : World} (hw : Wf w) (op : Op) (hv : op.ArgsValid)
+    (hop : match op with
+      | .fromInt _ _ _ | .fromBool _ _ | .fromUtf8 _ _ | .fromUtf8Lossy _ _ | .fromUtf16 _ _ | .fromUtf16Lossy _ _ => True
+      | _ => False) :
+    Spec.Target w.statics w.text op ((step rf w op).1.text op.target) (step rf w op).2 := by
+  cases op with
+  | fromInt d ty n =>
+    simp only [Spec.Target, Op.target]
+    cases hd : w.get d with
+    | some r =>
+      have : (step rf w (.fromInt d ty n)) = (w, .bad) := by simp [step, hd]
+      rw [this]; exact fresh_taken (by rw [text_isSome hw, hd]; rfl) rfl rfl
+    | none =>
+      apply fresh_free (text_eq_none hd)
+      simp only [step, hd, Option.isSome_none, Bool.false_eq_true, if_false]
+      rcases C14.intToReprTy_text (st := w.statics) (linv_empty hw hd) rf ty n hv.1 hv.2 with ⟨hp1, he, hs⟩ | ⟨hp1, r, he, g⟩
+      · rw [he]; right; exact ⟨text_heap_only d hd, rfl⟩
+      · rw [he]; left; exact ⟨text_put_self g, rfl⟩
+  | fromBool d b =>
+    simp only [Spec.Target, Op.target]
+    cases hd : w.get d with
+    | some r =>
+      have : (step rf w (.fromBool d b)) = (w, .bad) := by simp [step, hd]
+      rw [this]; exact fresh_taken (by rw [text_isSome hw, hd]; rfl) rfl rfl
+    | none =>
+      apply fresh_free (text_eq_none hd)
+      simp only [step, hd, Option.isSome_none, Bool.false_eq_true, if_false]
+      exact ⟨text_put_self (good_inline_fresh (linv_empty hw hd) (boolText b) (boolText_valid b)
+        (by cases b <;> simp [boolText])), by first | rfl | trivial⟩
+  | fromUtf8 d b =>
+    simp only [Spec.Target, Op.target]
+    cases hd : w.get d with
+    | some r =>
+      have : (step rf w (.fromUtf8 d b)) = (w, .bad) := by simp [step, hd]
+      rw [this]; exact fresh_taken (by rw [text_isSome hw, hd]; rfl) rfl rfl
+    | none =>
+      apply fresh_free (text_eq_none hd)
+      simp only [step, hd, Option.isSome_none, Bool.false_eq_true, if_false]
+      by_cases hvb : validUtf8 b = true
+      · have hval := (validUtf8_iff b).1 hvb
+        rw [if_pos hvb]
+        refine ⟨fun _ => ?_, fun hn => absurd hval hn⟩
+        rcases fromStr_fresh (st := w.statics) (linv_empty hw hd) rf b hval with ⟨hp1, he, hs⟩ | ⟨hp1, r, he, g⟩
+        · rw [he]; right; exact ⟨text_heap_only d hd, rfl⟩
+        · rw [he]; left; exact ⟨text_put_self g, rfl⟩
+      · rw [if_neg hvb]
+        exact ⟨fun hval => absurd ((validUtf8_iff b).2 hval) hvb, fun _ => ⟨text_eq_none hd, rfl⟩⟩
+  | fromUtf8Lossy d b =>
+    simp only [Spec.Target, Op.target]
+    cases hd : w.get d with
+    | some r =>
+      have : (step rf w (.fromUtf8Lossy d b)) = (w, .bad) := by simp [step, hd]
+      rw [this]; exact fresh_taken (by rw [text_isSome hw, hd]; rfl) rfl rfl
+    | none =>
+      apply fresh_free (text_eq_none hd)
+      simp only [step, hd, Option.isSome_none, Bool.false_eq_true, if_false]
+      rcases withCapacity_fresh (st := w.statics) (linv_empty hw hd) rf b.length with ⟨hp1, he, hs⟩ | ⟨hp1, r, he, g, _⟩
+      · rw [he]; right; exact ⟨text_heap_only d hd, rfl⟩
+      · rw [he]
+        have hc := collected_of_loop rf (lossyPushes b) (lossyPushes_valid b) hp1 r g
+        obtain ⟨hfl, hnp⟩ := lossyPushes_consumed b
+        rcases hc with ⟨h1, h2, _⟩ | ⟨h1, h2⟩ | ⟨_, _, h3⟩
+        · left; exact ⟨by rw [h1, hfl], h2⟩
+        · right; exact ⟨h1, h2⟩
+        · rw [hnp] at h3; cases h3
+  | fromUtf16 d u =>
+    simp only [Spec.Target, Op.target]
+    cases hd : w.get d with
+    | some r =>
+      have : (step rf w (.fromUtf16 d u)) = (w, .bad) := by simp [step, hd]
+      rw [this]; exact fresh_taken (by rw [text_isSome hw, hd]; rfl) rfl rfl
+    | none =>
+      apply fresh_free (text_eq_none hd)
+      simp only [step, hd, Option.isSome_none, Bool.false_eq_true, if_false]
+      rcases withCapacity_fresh (st := w.statics) (linv_empty hw hd) rf u.length with ⟨hp1, he, hs⟩ | ⟨hp1, r, he, g, _⟩
+      · rw [he]
+        exact ⟨fun _ _ => .inr ⟨text_heap_only d hd, rfl⟩, fun _ => ⟨text_heap_only d hd, .inr rfl⟩⟩
+      · rw [he]
+        dsimp only
+        have hs := pushLoop_text rf (decodeUtf16 u) hp1 r [] g (decodeUtf16_valid u)
+        revert hs
+        cases pushLoop rf w.statics hp1 r (decodeUtf16 u) with
+        | ok v2 hp2 r2 =>
+          intro ⟨g2, hnp⟩
+          simp only [List.nil_append] at g2
+          refine ⟨fun cs hcs => .inl ⟨?_, rfl⟩, fun hno => ?_⟩
+          · subst hcs
+            have := (decode_encode_consumed cs).1
+            show (w.put hp2 d (some r2)).text d = _
+            rw [text_put_self g2, this]
+          · exfalso
+            apply hno
+            apply decodeUtf16_accepts u hv
+            intro x hx hxn
+            subst hxn
+            rw [panics_true_of_none _ hx] at hnp
+            cases hnp
+        | err hp2 r2 =>
+          intro ⟨k, _, g2⟩
+          obtain ⟨hp', hrel, htx⟩ := finishTemp_dropped g2
+          have : finishUtf16 w d (.err hp2 r2) = (w.put hp' d none, .panicAlloc) := by
+            simp only [finishUtf16, finishTemp, hrel]
+          rw [this]
+          exact ⟨fun _ _ => .inr ⟨htx, rfl⟩, fun _ => ⟨htx, .inr rfl⟩⟩
+        | pidx hp2 r2 => intro hf; exact hf.elim
+        | pcb hp2 r2 =>
+          intro ⟨g2, hpn⟩
+          obtain ⟨hp', hrel, htx⟩ := finishTemp_dropped g2
+          have : finishUtf16 w d (.pcb hp2 r2) = (w.put hp' d none, .errUtf16) := by
+            simp only [finishUtf16, hrel]
+          rw [this]
+          refine ⟨fun cs hcs => ?_, fun _ => ⟨htx, .inl rfl⟩⟩
+          subst hcs
+          rw [(decode_encode_consumed cs).2] at hpn
+          cases hpn
+        | ub e => intro hf; exact hf.elim
+  | fromUtf16Lossy d u =>
+    simp only [Spec.Target, Op.target]
+    cases hd : w.get d with
+    | some r =>
+      have : (step rf w (.fromUtf16Lossy d u)) = (w, .bad) := by simp [step, hd]
+      rw [this]; exact fresh_taken (by rw [text_isSome hw, hd]; rfl) rfl rfl
+    | none =>
+      apply fresh_free (text_eq_none hd)
+      simp only [step, hd, Option.isSome_none, Bool.false_eq_true, if_false]
+      obtain ⟨hfl, hnp⟩ := lossy16_consumed u
+      have fin : ∀ hp0 r0, Good (oc w d) w.heap w.statics hp0 r0 [] →
+          (((finishTemp w d (pushLoop rf w.statics hp0 r0 (lossy16 u))).1.text d = some (lossy16Text u) ∧
+            (finishTemp w d (pushLoop rf w.statics hp0 r0 (lossy16 u))).2 = .ok .unit) ∨
+           ((finishTemp w d (pushLoop rf w.statics hp0 r0 (lossy16 u))).1.text d = none ∧
+            (finishTemp w d (pushLoop rf w.statics hp0 r0 (lossy16 u))).2 = .panicAlloc)) := by
+        intro hp0 r0 g0
+        rcases collected_of_loop rf (lossy16 u) (lossy16_valid u) hp0 r0 g0 with ⟨h1, h2, _⟩ | ⟨h1, h2⟩ | ⟨_, _, h3⟩
+        · left; exact ⟨by rw [h1, hfl], h2⟩
+        · right; exact ⟨h1, h2⟩
+        · rw [hnp] at h3; cases h3
+      rcases withCapacity_fresh (st := w.statics) (linv_empty hw hd) rf (utf16Hint u) with ⟨hp1, he, hs⟩ | ⟨hp1, r, he, g, _⟩
+      · rw [he]
+        simp only []
+        have hl1 : LInv (oc w d) w.heap hp1 (fun _ => 0) := linv_congr hs (linv_empty hw hd)
+        exact fin hp1 _ (good_inline_fresh hl1 [] valid_nil (by simp))
+      · rw [he]
+        exact fin hp1 r g
+  | _ => exact hop.elim
+
+
 theorem step_target (rf : Refuse) {w : World} (hw : Wf w) (op : Op) (hv : op.ArgsValid) :
     Spec.Target w.statics w.text op ((step rf w op).1.text op.target) (step rf w op).2 := by
   cases op with
@@ -619,6 +808,12 @@ theorem step_target (rf : Refuse) {w : World} (hw : Wf w) (op : Op) (hv : op.Arg
   | collectChars d hint items => exact target_build rf hw _ hv trivial
   | collectStrs d items => exact target_build rf hw _ hv trivial
   | display d pieces => exact target_build rf hw _ hv trivial
+  | fromInt d ty n => exact target_decode rf hw _ hv trivial
+  | fromBool d b => exact target_decode rf hw _ hv trivial
+  | fromUtf8 d b => exact target_decode rf hw _ hv trivial
+  | fromUtf8Lossy d b => exact target_decode rf hw _ hv trivial
+  | fromUtf16 d u => exact target_decode rf hw _ hv trivial
+  | fromUtf16Lossy d u => exact target_decode rf hw _ hv trivial
 
 /-- **one call refines one `String`-level step**: for every well-formed world, every operation with
 valid arguments and every allocator, the target handle changes as `String` allows and every other
@@ -641,7 +836,15 @@ theorem step_statics (rf : Refuse) (w : World) (op : Op) : (step rf w op).1.stat
     | pidx hp r => simp only [finishTemp]; cases releaseRepr hp r <;> rfl
     | pcb hp r => simp only [finishTemp]; cases releaseRepr hp r <;> rfl
     | ub u => rfl
-  cases op <;> simp only [step] <;> repeat' (first | rfl | exact fin _ _ _ _ | exact fint _ _ | split)
+  have finu : ∀ (d : Nat) (res : Res Unit), (finishUtf16 w d res).1.statics = w.statics := by
+    intro d res
+    cases res with
+    | pcb hp r => simp only [finishUtf16]; cases releaseRepr hp r <;> rfl
+    | ok v hp r => exact fint d _
+    | err hp r => exact fint d _
+    | pidx hp r => exact fint d _
+    | ub u => exact fint d _
+  cases op <;> simp only [step] <;> repeat' (first | rfl | exact fin _ _ _ _ | exact fint _ _ | exact finu _ _ | split)
 
 /-- the outputs of a history -/
 def outs (rf : Refuse) (w : World) : List Op → List Out
